@@ -124,7 +124,7 @@ func runGroup(c *mon.Ctx, g *groups.Group) {
 	rng := gen.New(c.Seed, "c02/"+N)
 	f := g.F
 	C := g.C
-	pool := buildPool(c, g, rng, c.Pick(3, 12))
+	pool := buildPool(c, g, rng, c.Pick(3, 30))
 	off := offCurve(g, rng)
 	randZ := func() ofield.El {
 		for {
